@@ -998,6 +998,27 @@ pub fn check_spec(rep: &mut Report, repo: &gix::Repository, info: &RepoInfo, bat
     if agree {
         return;
     }
+    // `:/<regex>` and `^{/<regex>}` name the YOUNGEST matching commit; when the two answers are commits
+    // with the same committer time, which one is "youngest" depends on the order in which references
+    // (git) or equal-time queue entries (gitoxide) are visited — not specified by gitrevisions(7)
+    if spec.text.starts_with(":/") || spec.text.contains("^{/") {
+        if let (Ok(Ok((a, _))), Ok(b)) = (&gix_res, &git_res) {
+            let time_of = |hexid: &str| -> Option<i64> {
+                let id = gix_hash::ObjectId::from_hex(hexid.trim_start_matches('^').as_bytes()).ok()?;
+                Some(repo.find_commit(id).ok()?.time().ok()?.seconds)
+            };
+            if a.len() == b.len()
+                && !a.is_empty()
+                && a.iter().zip(b.iter()).all(|(x, y)| x == y || (time_of(x).is_some() && time_of(x) == time_of(y)))
+            {
+                rep.outside_domain(&format!(
+                    "commit-message search with a tie in committer time: spec {:?} in repo seed {}: gix {:?} vs git {:?}",
+                    spec.text, info.seed, a, b
+                ));
+                return;
+            }
+        }
+    }
     let git_desc = match &git_res {
         Ok(l) => format!("ok[{}]", shape(l)),
         Err(_) => "err".into(),
